@@ -46,6 +46,8 @@ Next == /\ l <= Len(Scens[sc].ev) /\ l' = l + 1 /\ UNCHANGED sc
              [] e[1] = "frame" -> Frame /\ frames' = e[2] /\ UNCHANGED <<prevc, n>>
              [] e[1] = "req" -> Request /\ UNCHANGED <<prevc, n>>
              [] e[1] = "ret" -> Stop /\ e[2] = e[4] /\ e[3] = e[5] /\ UNCHANGED <<prevc, n>>
+             \* machine cycles executed by Run, modulo the frame length: Run returns between frames, never inside one
+             [] e[1] = "cyc" -> e[2] = 0 /\ UNCHANGED <<svars, prevc, n>>
              [] OTHER -> FALSE
 Spec == Init /\ [][Next]_vars
 Done == (l = Len(Scens[sc].ev) + 1) => PrintT(<<"ACCEPT", Scens[sc].id>>)
